@@ -15,6 +15,9 @@
 **             prop=C11: same state graph; the point is the iteration oracles that run in every state of every
 **                       mode anyway (forward count == len, backward = reverse of forward then Terminal)
 **                       plus: the i-th iterated item is the object get(i) returns
+**             oracle=full|light  light: per-state oracle = len + forward/backward iteration + white-box only;
+**                       get(i)/mem(v) become explicit operations (see the comment at `light`)
+**             mode=sortladder (array|tuple) sort_n=N: enumerated inputs up to length N under sort() and sort_by(gt)
 **             alias=<bits>  aliasing calls whose argument is an element of the receiver itself
 **                          bit 1 (default): push(x,get(x,k)), append, push_at(x,get(x,k),i),
 **                          set(x,i,get(x,k)) wherever the pinned library handles them;
@@ -105,6 +108,18 @@ static int kindA, kindB, maxlen, nvals, two, same, probe, picky, alias = 15, poi
 static var poisonobj;         /* an Int carrying the value Picky refuses */
 static var valobj_int0;       /* an Int 0 (source element for the poison concat) */
 static int propC05, propC10, propC11, propC12;
+/* oracle=light.  GENERAL RULE: anything the oracle calls between two operations of a history can hide a
+   history-dependent defect - an indexed get() walks the container and overwrites any cursor, cache or
+   "last position" the implementation keeps, so a stale one never survives to the next operation.  The full
+   oracle (len, iteration, get(+-i), mem after EVERY operation) is the strongest view of each state; the light
+   oracle looks only through len, forward/backward iteration and the white-box structs, so that the indexed
+   operations of the alphabet (set, get, push_at, pop_at as explicit operations) hit the library back to back.
+   Both are needed.  In light mode get(i) and mem(v) are explicit self-loop operations whose result is compared
+   with the model, and the canonical state carries one feature of the history the container cannot show: the
+   index of the last indexed access (states that differ only in it are distinct, so "get(i) ; rem ; get(i)"
+   is a path of the graph). */
+static int light;
+static int lastidx = -1;
 static var ET;                /* element type of Array/List: Int or Probe */
 static var valobj[8];         /* value carriers 0..nvals (index nvals: a value that is never stored) */
 static var wrongobj;          /* an object of the wrong element type (String) */
@@ -218,6 +233,11 @@ static int walk_back(var x, int n, int* got) {
 
 /* len + get(i): the API-visible contents; -1 if they cannot be read */
 static int snap(var x, int64_t* out, int cap) {
+  if (light) {   /* no indexed access: read through iteration */
+    var e2 = VF_CATCH(g_int = walk(x, out, cap));
+    if (e2 or g_int >= cap) return -1;
+    return g_int;
+  }
   var e = VF_CATCH(g_sz = len(x));
   if (e) return -1;
   int n = (int)g_sz;
@@ -317,6 +337,8 @@ static int check_seq(var x, int kind, const int* v, int n, const char* who, int 
     if (g_int == n) { vf_violation(LK(kind, "iter-backward-does-not-end"), NULL, "%s: backward iteration yields another item after the %d items of the container instead of Terminal", who, n); return 1; }
     if (g_int >= 0) { vf_violation(LK(kind, "iter-backward-not-reverse"), NULL, "%s: item %d of the backward iteration is not item %d of the forward iteration", who, g_int, n - 1 - g_int); return 1; }
   }
+  if (light) { vf.evaluations++; if (audit(x, kind, who)) { corrupt = 1; return 1; } return 0; }
+
   /* C11: the i-th item of the iteration is the object get(i) returns */
   if (propC11) {
     for (int i = 0; i < n && i < LADMAX + 16; i++) {
@@ -479,6 +501,7 @@ static size_t canon_one(var x, struct seq* m, char* buf, size_t cap) {
 static size_t canon(char* buf, size_t cap) {
   size_t o = canon_one(CA, &MA, buf, cap);
   if (two) { o += snprintf(buf + o, cap - o, " B:"); o += canon_one(CB, &MB, buf + o, cap - o); }
+  if (light) o += snprintf(buf + o, cap - o, " last-index:%d", lastidx);
   return o;
 }
 
@@ -500,6 +523,7 @@ static void reset(void) {
   memset(&MA, 0, sizeof MA); memset(&MB, 0, sizeof MB);
   CA = mk(kindA); MA.exists = 1; MA.kind = kindA; MA.managed = 0;
   CB = NULL; MB.kind = kindB;
+  lastidx = -1;
   setop("init");
 }
 
@@ -547,7 +571,7 @@ static void cleanup(void) {
 enum { T_PUSH, T_POP, T_APPEND, T_SET, T_PUSHAT, T_POPAT, T_REM, T_RESIZE, T_SORT, T_COPY, T_CONCAT, T_ASSIGN,
        T_B_COPY, T_B_ASSIGN_FROM_A, T_A_ASSIGN_FROM_B, T_B_DEL, T_B_PUSH, T_B_POP, T_SWAP,
        T_AL_PUSH, T_AL_APPEND, T_AL_SET, T_AL_PUSHAT, T_AL_CONCAT_SELF, T_AL_ASSIGN_SELF,
-       T_P_POISON, T_P_CONCAT,
+       T_P_POISON, T_P_CONCAT, T_GET, T_MEM,
        T_F_IDX, T_F_REM_ABSENT, T_F_WRONG, T_F_NULL, T_F_NULLIDX, T_F_CONCAT_NULL, T_F_ASSIGN_NULL, T_F_STACK };
 enum { FO_GET, FO_SET, FO_POPAT, FO_PUSHAT, FO_PUSH, FO_APPEND };
 static const char* FON[] = { "get", "set", "pop_at", "push_at", "push", "append" };
@@ -596,6 +620,13 @@ static void make_alphabet(void) {
   addop(T_COPY, 0, 0, 0, "A=copy(A)");
   for (int s = 0; s < nsrc; s++) for (int k = 0; k < nk; k++) { srcname(s, sn, sizeof sn); addop(T_CONCAT, k, s, 0, "concat(%s%s)", KN[k], sn); }
   for (int s = 0; s < nsrc; s++) for (int k = 0; k < nk; k++) { srcname(s, sn, sizeof sn); addop(T_ASSIGN, k, s, 0, "assign(A,%s%s)", KN[k], sn); }
+  if (light) {
+    for (int i = 0; i < maxlen; i++) for (int sgn = 0; sgn < 2; sgn++) {
+      int64_t ix = sgn ? -(int64_t)(i + 1) : i;
+      addop(T_GET, 0, 0, ix, "get(%" PRId64 ")", ix);
+    }
+    for (int v = 0; v <= nvals; v++) addop(T_MEM, v, 0, 0, "mem(%d)", v);
+  }
   if ((alias & 1) && kindA != K_TUPLE) {
     /* aliasing: the argument is an element of the receiver itself (a Tuple would then hold one object twice: D16) */
     for (int k = 0; k < maxlen; k++) addop(T_AL_PUSH, k, 0, 0, "push(A,get(A,%d))", k);
@@ -884,7 +915,26 @@ static int apply(int op) {
     setop(o->i < 0 ? "set/negative-index" : "set");
     e = VF_CATCH(set(CA, $I(o->i), elem(kindA, o->a)));
     if (e) return raised(e, "set");
-    MA.v[p] = o->a;
+    MA.v[p] = o->a; lastidx = p;
+    return VF_OK; }
+
+  case T_GET: {     /* light oracle only: an explicit query, a self-loop whose result must match the model */
+    if (o->i >= n || o->i < -(int64_t)n) return VF_SKIP;
+    int p = (int)(o->i < 0 ? n + o->i : o->i);
+    setop(o->i < 0 ? "get/negative-index" : "get");
+    e = VF_CATCH({ g_var = get(CA, $I(o->i)); g_i64 = elemval(g_var); });
+    if (e) return raised(e, "get");
+    lastidx = p;
+    if (g_i64 != MA.v[p]) { vf_violation(L("value"), NULL, "get(%" PRId64 ")=%" PRId64 ", reference has %d at that position", o->i, (int64_t)g_i64, MA.v[p]); return VF_BAD; }
+    if (kindA != K_TUPLE && type_of(g_var) isnt ET) { vf_violation(L("type"), NULL, "get(%" PRId64 ") is not of the element type", o->i); return VF_BAD; }
+    return VF_OK; }
+
+  case T_MEM: {
+    setop("mem");
+    int want = m_find(&MA, o->a) >= 0;
+    e = VF_CATCH(g_b = mem(CA, valobj[o->a]));
+    if (e) return raised(e, "mem");
+    if ((int)g_b != want) { vf_violation(L("value"), NULL, "mem(%d)=%d, reference says %d", o->a, (int)g_b, want); return VF_BAD; }
     return VF_OK; }
 
   case T_PUSHAT:
@@ -893,12 +943,13 @@ static int apply(int op) {
       setop("push_at");
       e = VF_CATCH(push_at(CA, elem(kindA, o->a), $I(o->i)));
       if (e) return raised(e, "push_at");
-      m_ins(&MA, (int)o->i, o->a);
+      m_ins(&MA, (int)o->i, o->a); lastidx = (int)o->i;
       return VF_OK;
     }
     if (o->i == n || (o->i < 0 && o->i >= -(int64_t)(n + 1))) {
       el = elem(kindA, o->a);
       if (propC12) fail_begin();
+      lastidx = (int)(o->i < 0 ? n + 1 + o->i : o->i);
       return apply_pushat_unspecified(el, o->a, o->i);
     }
     return VF_SKIP;
@@ -909,7 +960,7 @@ static int apply(int op) {
     setop(o->i < 0 ? "pop_at/negative-index" : "pop_at");
     e = VF_CATCH(pop_at(CA, $I(o->i)));
     if (e) return raised(e, "pop_at");
-    m_del(&MA, p);
+    m_del(&MA, p); lastidx = p;
     return VF_OK; }
 
   case T_REM: {
@@ -1020,6 +1071,7 @@ static int apply(int op) {
     else e = VF_CATCH(append(CA, el));
     if (e) return raised(e, lastop);
     int v = MA.v[k];
+    lastidx = (isset || isat) ? i : k;
     if (isset) MA.v[i] = v; else if (isat) m_ins(&MA, i, v); else MA.v[MA.n++] = v;
     return VF_OK; }
   case T_AL_CONCAT_SELF:
@@ -1275,6 +1327,130 @@ static void ladder(void) {
   del_raw(x);
   for (int i = 0; i < ntemps; i++) del_raw(temps[i].obj);
   ntemps = 0;
+  vf_watchdog(0);
+}
+
+
+/* ---- sort ladder: enumerated inputs far beyond the BFS length bound, Array and Tuple ---------------
+** n <= 8: every permutation of 0..n-1.  Larger n: sorted, reversed, every rotation of both, organ-pipe
+** and its inverse, interleavings of 2..5 sorted runs, two sorted runs (even/odd values) in both orders,
+** sorted and reversed with every single transposition (i,j), all-equal, every 0/1 pattern (n <= 12),
+** few-distinct-values patterns with period 2..5.  Each under sort() and sort_by(gt): the result must be
+** ordered by the comparison, a permutation (Tuple: of the same OBJECTS; Array: of the value multiset),
+** and len unchanged.
+*/
+
+#define SLMAX 128
+static int sl_in[SLMAX], sl_n, sl_cmp;           /* current input, comparator 0 = sort() / lt, 1 = sort_by(gt) */
+static const char* sl_family; static long sl_idx;
+static var sl_obj[SLMAX];                         /* Tuple: the objects handed in, by input position */
+static int sl_only_n = -1;
+
+static int ptrcmp(const void* a, const void* b) { uintptr_t x = (uintptr_t)*(var*)a, y = (uintptr_t)*(var*)b; return x < y ? -1 : x > y; }
+
+static void sl_run_one(void) {
+  int n = sl_n;
+  char lb[160];
+  #define SLL(sym) (snprintf(lb, sizeof lb, "%s/int/sortladder/%s/%s/%s/%s", KN[kindA], sl_cmp ? "sort_by-gt" : "sort", sl_family, n >= 10 ? "n>=10" : "n<10", sym), lb)
+  vf_set_cur("sortladder kind=%s n=%d family=%s index=%ld cmp=%s", KN[kindA], n, sl_family, sl_idx, sl_cmp ? "gt" : "lt");
+  var x = mk(kindA);
+  for (int i = 0; i < n; i++) {
+    if (kindA == K_TUPLE) { sl_obj[i] = fresh_distinct(sl_in[i]); push(x, sl_obj[i]); }
+    else push(x, $I(sl_in[i]));
+  }
+  var e;
+  if (sl_cmp) e = VF_CATCH(sort_by(x, gt)); else e = VF_CATCH(sort(x));
+  vf.executions++; vf.transitions++;
+  int sorted_already = 1;
+  for (int i = 0; i + 1 < n; i++) if (sl_cmp ? sl_in[i] < sl_in[i + 1] : sl_in[i] > sl_in[i + 1]) sorted_already = 0;
+  if (!sorted_already) vf.nontrivial++;
+  int bad = 0;
+  if (e) { vf_violation(SLL("raises"), NULL, "sort raised %s", vf_exc_name(e)); bad = 1; }
+  if (!bad && len(x) != (size_t)n) { vf_violation(SLL("len-changed"), NULL, "len %d -> %zu", n, len(x)); bad = 1; }
+  static int64_t out[SLMAX]; static var outp[SLMAX], inp[SLMAX];
+  if (!bad) {
+    for (int i = 0; i < n; i++) { var it = get(x, $I(i)); outp[i] = it; out[i] = c_int(it); }
+    for (int i = 0; i + 1 < n && !bad; i++) {
+      if (sl_cmp ? out[i] < out[i + 1] : out[i] > out[i + 1]) {
+        char b1[600], b2[600]; int64_t t[SLMAX]; for (int k = 0; k < n; k++) t[k] = sl_in[k];
+        seqstr(t, n, b1, sizeof b1); seqstr(out, n, b2, sizeof b2);
+        vf_violation(SLL("not-sorted"), NULL, "%s of %s gives %s: items %d and %d are out of order", sl_cmp ? "sort_by(gt)" : "sort", b1, b2, i, i + 1); bad = 1;
+      }
+    }
+  }
+  if (!bad) {
+    if (kindA == K_TUPLE) {   /* the same objects */
+      memcpy(inp, sl_obj, n * sizeof(var));
+      qsort(inp, n, sizeof(var), ptrcmp); qsort(outp, n, sizeof(var), ptrcmp);
+      if (memcmp(inp, outp, n * sizeof(var)) != 0) { vf_violation(SLL("not-a-permutation"), NULL, "the sorted Tuple does not hold exactly the objects it held before"); bad = 1; }
+    } else {                  /* the same multiset of values */
+      int cnt[SLMAX] = {0};
+      for (int i = 0; i < n; i++) cnt[sl_in[i]]++;
+      for (int i = 0; i < n && !bad; i++) { if (out[i] < 0 || out[i] >= SLMAX || --cnt[out[i]] < 0) { vf_violation(SLL("not-a-permutation"), NULL, "the sorted Array does not hold the values it held before"); bad = 1; } }
+    }
+  }
+  vf.evaluations++;
+  if (vf_want_sample()) { char b1[600]; int64_t t[SLMAX]; for (int k = 0; k < n; k++) t[k] = sl_in[k]; seqstr(t, n, b1, sizeof b1); vf_sample("%s %s %s", KN[kindA], sl_cmp ? "sort_by(gt)" : "sort()", b1); }
+  del_raw(x);
+  for (size_t i = 0; i < nfresh; i++) del_raw(fresh_list[i]);
+  nfresh = 0;
+  #undef SLL
+}
+
+static void sl_emit(const char* family) {
+  sl_family = family;
+  vf.states++;                              /* distinct inputs */
+  for (sl_cmp = 0; sl_cmp < 2; sl_cmp++) sl_run_one();
+  sl_idx++;
+}
+
+static void sl_perms(int k) {               /* all permutations of sl_in[0..n) by swapping */
+  if (k == sl_n) { sl_emit("permutation"); return; }
+  for (int i = k; i < sl_n; i++) {
+    int t = sl_in[k]; sl_in[k] = sl_in[i]; sl_in[i] = t;
+    sl_perms(k + 1);
+    t = sl_in[k]; sl_in[k] = sl_in[i]; sl_in[i] = t;
+  }
+}
+
+static void sortladder(void) {
+  vf.phase = "seq-sort-ladder";
+  int N = (int)vf_param_i("sort_n", 64); if (N > SLMAX - 1) N = SLMAX - 1;
+  int permmax = (int)vf_param_i("perm_n", 8);
+  int bitsmax = (int)vf_param_i("bits_n", 12);
+  if (kindA == K_LIST) { vf_note("List does not implement Sort"); return; }
+  vf_watchdog(3000);
+  for (int n = 0; n <= N; n++) {
+    sl_n = n; sl_idx = 0;
+    if (n <= permmax) { for (int i = 0; i < n; i++) sl_in[i] = i; sl_perms(0); }
+    if (n <= bitsmax) for (long m = 0; m < (1L << n); m++) { for (int i = 0; i < n; i++) sl_in[i] = (int)((m >> i) & 1); sl_emit("zero-one-pattern"); }
+    if (n <= permmax) continue;
+    /* rotations of sorted and reversed (rotation 0 = sorted / reversed themselves) */
+    for (int r = 0; r < n; r++) { for (int i = 0; i < n; i++) sl_in[i] = (i + r) % n; sl_emit(r ? "rotated-sorted" : "sorted"); }
+    for (int r = 0; r < n; r++) { for (int i = 0; i < n; i++) sl_in[i] = n - 1 - (i + r) % n; sl_emit(r ? "rotated-reversed" : "reversed"); }
+    /* organ pipe and its inverse */
+    for (int i = 0; i < n; i++) sl_in[i] = i < n / 2 ? 2 * i : 2 * (n - 1 - i) + 1; sl_emit("organ-pipe");
+    for (int i = 0; i < n; i++) sl_in[i] = n - (i < n / 2 ? 2 * i : 2 * (n - 1 - i) + 1); sl_emit("organ-pipe-inverse");
+    /* s sorted runs interleaved, and s sorted runs one after the other */
+    for (int sr = 2; sr <= 5; sr++) {
+      int per = (n + sr - 1) / sr;
+      for (int i = 0; i < n; i++) sl_in[i] = (i % sr) * per + i / sr; sl_emit("interleaved-runs");
+      for (int i = 0; i < n; i++) sl_in[i] = sr * (i % per) + i / per; sl_emit("consecutive-runs");
+    }
+    /* sorted / reversed with every single transposition */
+    for (int a = 0; a < n; a++) for (int b = a + 1; b < n; b++) {
+      for (int i = 0; i < n; i++) sl_in[i] = i; sl_in[a] = b; sl_in[b] = a; sl_emit("sorted-one-transposition");
+      for (int i = 0; i < n; i++) sl_in[i] = n - 1 - i; { int t = sl_in[a]; sl_in[a] = sl_in[b]; sl_in[b] = t; } sl_emit("reversed-one-transposition");
+    }
+    /* few distinct values */
+    for (int i = 0; i < n; i++) sl_in[i] = 3; sl_emit("all-equal");
+    for (int pd = 2; pd <= 5; pd++) for (int mul = 1; mul < pd; mul++) {
+      for (int i = 0; i < n; i++) sl_in[i] = (i * mul) % pd; sl_emit("periodic");
+      for (int i = 0; i < n; i++) sl_in[i] = pd - 1 - (i * mul) % pd; sl_emit("periodic-descending");
+      for (int i = 0; i < n; i++) sl_in[i] = (i / pd) % 2 ? (i % pd) : pd - 1 - (i % pd); sl_emit("periodic-zigzag");
+    }
+  }
+  vf_note("sort ladder %s: lengths 0..%d, all permutations up to length %d, all 0/1 patterns up to length %d, %" PRIu64 " inputs, each under sort() and sort_by(gt)", KN[kindA], N, permmax, bitsmax, vf.states);
   vf_watchdog(0);
 }
 
@@ -1557,6 +1733,7 @@ int main(int argc, char** argv) {
   propC10 = strcmp(prop, "C10") == 0;
   propC12 = strcmp(prop, "C12") == 0;
   propC11 = strcmp(prop, "C11") == 0;
+  light = vf_param_is("oracle", "light", "full");
   maxlen = (int)vf_param_i("maxlen", 4); if (maxlen > MAXL) maxlen = MAXL; if (maxlen < 2) maxlen = 2;
   nvals = (int)vf_param_i("nvals", 3); if (nvals > 6) nvals = 6; if (nvals < 1) nvals = 1;
   two = (int)vf_param_i("two", 0);
@@ -1584,6 +1761,7 @@ int main(int argc, char** argv) {
 
   static char dname[96];
   if (strcmp(mode, "ladder") == 0) { ladder(); vf_finish(); }
+  if (strcmp(mode, "sortladder") == 0) { sortladder(); vf_finish(); }
   if (strcmp(mode, "cmpgrid") == 0) { cmpgrid(); vf_finish(); }
   if (strcmp(mode, "box") == 0) {
     bx_maxC = (int)vf_param_i("maxlen", 2); if (bx_maxC > BXMAX) bx_maxC = BXMAX;
@@ -1597,7 +1775,7 @@ int main(int argc, char** argv) {
 
   make_alphabet();
   snprintf(dname, sizeof dname, "seq[%s%s,%s,len<=%d,%dvals%s%s%s,%s]", KN[kindA], WB ? "" : "(black-box)", picky ? "picky" : probe ? "probe" : "int", maxlen, nvals,
-           two ? ",B=" : "", two ? KN[kindB] : "", same ? ",same-object" : "", prop);
+           two ? ",B=" : "", two ? KN[kindB] : "", same ? ",same-object" : light ? ",light-oracle" : "", prop);
   struct vf_domain d = { dname, nops, reset, cleanup, apply, check, canon, opname, nontrivial,
                          (size_t)vf_param_i("depth", 0), (size_t)vf_param_i("max_states", 0) };
   if (vf.replay) vf_bfs_replay_case(&d, vf.replay);
